@@ -106,6 +106,9 @@ func (s bytesSpec) class() string {
 }
 
 func msOf(t time.Time) int64 {
+	if y := t.Year(); y > 2200 {
+		return t.UnixMilli() // beyond 2262 a nanosecond count does not fit 64 bits
+	}
 	ns := t.UnixNano()
 	ms := ns / int64(time.Millisecond)
 	if ns%int64(time.Millisecond) < 0 {
